@@ -11,7 +11,8 @@
     * `handler.value is None` on a field handler means "present in old or new";
     * for *every* ChangingCause (also creation/resume/deletion) the value criterion is tried on
       `[new, old]`, so `value=ABSENT` holds on every creation (`old` is `None` ⇒ absent);
-    * field callbacks receive the private `_UNSET.token` (here: `none`) for an absent field,
+    * field callbacks receive Python `None` for an absent field (since /repo 07968cf; before, the
+      private `_UNSET.token`), i.e. an absent field and a present `null` look the same to them,
       label/annotation callbacks receive Python `None` (here: `none : Option String`);
     * the trailing `any(handler.value == value …)` also runs for `None`, tokens and callables, and
       makes the private token, used as a criterion, match an absent field.
@@ -46,7 +47,8 @@ inductive VCrit (V : Type) where
   | unset                                  -- Python `None`
   | present
   | absent
-  | callback (f : Option V → Bool)         -- receives the resolved value; `none` = `_UNSET.token`
+  | callback (f : Option V → Bool)         -- a function of the Python argument (`none` would be the
+                                           -- private token: never passed since /repo 07968cf)
   | lit (x : Option V)                     -- any other object; `none` = `_UNSET.token` itself
 
 /-- What `match()` reads of a cause. Field access is a function of the path:
@@ -189,9 +191,10 @@ def VCrit.isPresent {V} : VCrit V → Bool | .present => true | _ => false
 def VCrit.isAbsent {V} : VCrit V → Bool | .absent => true | _ => false
 def VCrit.isCallable {V} : VCrit V → Bool | .callback _ => true | _ => false
 
-/-- `crit(value, **kwargs)` when the criterion is callable (guarded by `callable(...)` in the code). -/
-def VCrit.call {V} : VCrit V → Option V → Bool
-  | .callback f, x => f x
+/-- `crit(None if value is absent else value, **kwargs)` when the criterion is callable (guarded by
+    `callable(...)` in the code): an absent field is passed as Python `None` (/repo 07968cf). -/
+def VCrit.call {V} [PyVal V] : VCrit V → Option V → Bool
+  | .callback f, x => f (some (x.getD PyVal.null))
   | _, _ => false
 
 /-- Python `crit == value`: `None == v` iff `v is None`; enum tokens and functions equal no field
@@ -328,9 +331,11 @@ def prematchHandler {V} [PyVal V] (h : Handler V) (c : Cause V) : Bool := premat
 -- _deduplicated and the registries
 
 /-- the fields `_deduplicated` builds its key from: `(id(handler.fn), handler.id)` -/
-def dedupKeyFields : List String := ["fn", "id"]
+def dedupKeyFields : List String := ["func", "id"]
 
-def Handler.key {V} (h : Handler V) : Nat × String := (h.fn, h.id)
+/-- `(fn_key, handler.id)` with `fn_key = (id(fn.__self__), id(fn.__func__))` for a bound method and
+    `id(fn)` otherwise (/repo c47dbbf): the identity of the FUNCTION, not of the registered object -/
+def Handler.key {V} (h : Handler V) : Nat × String := (h.func, h.id)
 
 /-- the loop of `_deduplicated` with its `seen_ids` set; generic in the element type so that the
     driver can run the very same function on position-tagged handlers -/
